@@ -642,12 +642,12 @@ func cmdWeb(args []string) {
 	}
 	tag := *prop + "w"
 	var b strings.Builder
-	b.WriteString("From Godi Require Import Base Web.\n")
+	b.WriteString("From Coq Require Import NArith.\nFrom Godi Require Import Base Web.\n")
 	for _, c := range cases {
 		if c.Crash != "" {
 			continue
 		}
-		fmt.Fprintf(&b, "Eval vm_compute in (%d, %s).\n", c.ID, c.G())
+		fmt.Fprintf(&b, "Eval vm_compute in (%d%%N, %s).\n", c.ID, c.G())
 	}
 	os.WriteFile(fmt.Sprintf("%s/cases_%s_0.v", *out, tag), []byte(b.String()), 0o644)
 	writeJSON(*out+"/cases.json", cases)
